@@ -171,9 +171,8 @@ static std::atomic<long long> g_call_start_ms{0};
 static long long now_ms() { return std::chrono::duration_cast<std::chrono::milliseconds>(Clock::now().time_since_epoch()).count(); }
 static void spin_loop() { g_loop->runNext([] {}, "spin"); g_loop->runLoop(event::Loop::Mode::kOnce); }
 
-static void flush_on_fault() {
-    // best effort: the faulting thread may hold g_evm
-    if (g_evm.try_lock()) g_evm.unlock();
+static void flush_on_fault(bool) {
+    // best effort, no locking
     std::sort(g_events.begin(), g_events.end(), [](const Ev &a, const Ev &b) { return a.seq < b.seq; });
     for (auto &e : g_events) { fputs(e.line.c_str(), vh::T().f); fputc('\n', vh::T().f); }
     g_events.clear();
